@@ -67,7 +67,10 @@ pub fn sample(t: &Ty, r: &mut Rng) -> Value {
     match t {
         Ty::Bool(v) => Value::boolean(*r.pick(v)),
         Ty::Int(iv) => { let (a, b) = *r.pick(iv); Value::integer(match r.below(4) { 0 => a, 1 => b, 2 => a.saturating_add(1).min(b), _ => ((a as i128 + b as i128) / 2) as i64 }) }
-        Ty::Float(iv) => { let (a, b) = *r.pick(iv); Value::float(match r.below(4) { 0 => a, 1 => b, 2 => { let m = a / 2.0 + b / 2.0; if m >= a && m <= b { m } else { a } } _ => { let m = (a / 2.0 + b / 2.0).floor(); if m >= a && m <= b { m } else { b } } }) }
+        Ty::Float(iv) => { let (a, b) = *r.pick(iv); Value::float(match r.below(7) { 0 => a, 1 => b, 2 => { let m = a / 2.0 + b / 2.0; if m >= a && m <= b { m } else { a } } 3 => { let m = (a / 2.0 + b / 2.0).floor(); if m >= a && m <= b { m } else { b } }
+            // interior points: uniform, and close to either end (finite, not too wide ranges only)
+            k => { let w = b - a; if !w.is_finite() || w == 0.0 { a } else { let u = (r.below(1_000_000) as f64 + 0.5) / 1_000_000.0;
+                let x = match k { 4 => a + w * u, 5 => a + w * u * 0.05, _ => b - w * u * 0.05 }; if x >= a && x <= b { x } else { a } } } }) }
         Ty::Text(None) => Value::text(*r.pick(&WORDS)),
         Ty::Text(Some(v)) => Value::text(r.pick(v).clone()),
         Ty::Opt(x) => if r.chance(1, 3) { Value::none() } else { Value::some(sample(x, r)) },
